@@ -71,13 +71,18 @@ class VerifyMixin:
         res = None
         for combo in itertools.product(*[alts[n] for n in names]):
             saved = dict(c.params)
+            saved_self = c.self_type
             label = ','.join(lbl for lbl, _ in combo)
             for n, (lbl, t) in zip(names, combo):
-                c.params[n] = t
+                if n == 'self':
+                    c.self_type = t
+                else:
+                    c.params[n] = t
             try:
                 r = self._verify_contract(c, f'[{label}]')
             finally:
                 c.params = saved
+                c.self_type = saved_self
             if res is None:
                 res = r
             else:
